@@ -35,9 +35,13 @@ import (
 //     class names;
 //  2. precision self-test, on every run: 250 generated documents for which the
 //     class predicts something are run on the real code; the share in which the real code
-//     really does what was predicted (and the oracle fails) must be >= 95 %. A class whose
-//     prediction also holds for documents that pass is too broad and is reported as a broken
-//     tie "finding-class-too-broad: <id>", with the measured precision in the histogram;
+//     really does what was predicted (and the oracle fails) must be >= 95 % ON THE UNCHANGED
+//     TREE. It is measured and recorded on every run (histogram class-precision/<id>/…, and a
+//     note when it is low); it is ENFORCED at authoring time only: with VERIF_C29_STRICT=1 a
+//     low precision is the broken tie "finding-class-too-broad: <id>". A normal check never
+//     fires because of it: a change that cures a finding lowers that class's precision, and a
+//     check may only report violations of the property. A class whose recorded witness no
+//     longer fails is inactive for the run (classOff): not printed, not tested, never used;
 //  3. the recorded minimal witness of the class must still fail and fall into its own class;
 //  4. shrinking keeps the attribution (shrinkDoc): the original failing document is explained
 //     first, and a shrinking step is taken only if the candidate is explained by the same class
@@ -1295,7 +1299,7 @@ func intersects(a, b []span) bool {
 // an effect of a kind the class names; "" when there is none
 func explain(doc, clause, detail string, r tresult) verdict {
 	if clause == "unescape-escape" {
-		if doc == "\u00a0" {
+		if doc == "\u00a0" && !classOff["md-unescape-nbsp"] {
 			return verdict{id: "md-unescape-nbsp", effect: "roundtrip"}
 		}
 		return verdict{effect: "roundtrip"}
@@ -1312,13 +1316,25 @@ func explain(doc, clause, detail string, r tresult) verdict {
 		for _, e := range f.effects {
 			ok = ok || e == v.effect
 		}
-		if ok && intersects(v.culprit, f.predict(in)) {
+		if ok && !classOff[f.id] && intersects(v.culprit, f.predict(in)) {
 			v.id = f.id
 			return v
 		}
 	}
 	return v
 }
+
+// classOff: the classes that are inactive on the tree under test (run sets it: the class is not
+// listed as an open finding, or its recorded witness no longer fails there - the defect was
+// cured). Nothing is attributed to an inactive class and it is not self-tested; a cure must
+// never make the check fire.
+var classOff = map[string]bool{}
+
+// strict: VERIF_C29_STRICT=1 turns the precision requirement into a broken tie. It is the
+// authoring-time obligation on the unchanged tree (run it when editing classes); a normal
+// check only measures and records, because a change that cures a finding in part lowers the
+// measured precision of its class and must not be reported as a violation.
+func strict() bool { return os.Getenv("VERIF_C29_STRICT") == "1" }
 
 // classify: the id of the class if it is listed as an open known finding
 func classify(c *hx.Ctx, doc, clause, detail string, r tresult) string {
@@ -1389,7 +1405,7 @@ func precisionSelfTest(c *hx.Ctx, report func(kind, name, caseLine, human, impl,
 	samples := make([][]sample, len(findingDefs))
 	seen := map[string]bool{}
 	for g := range findingDefs {
-		if findingDefs[g].gen == nil {
+		if findingDefs[g].gen == nil || classOff[findingDefs[g].id] {
 			continue
 		}
 		// the class's own generator until the class has its documents (what it makes is offered to
@@ -1415,7 +1431,7 @@ func precisionSelfTest(c *hx.Ctx, report func(kind, name, caseLine, human, impl,
 			c.Res.Histogram["class-precision/"+findingDefs[g].id+"/drawn"]++
 			in := analyse(d)
 			for i := range findingDefs {
-				if len(samples[i]) < precisionDocs {
+				if len(samples[i]) < precisionDocs && !classOff[findingDefs[i].id] {
 					if p := findingDefs[i].predict(in); len(p) > 0 {
 						samples[i] = append(samples[i], sample{d, p})
 					}
@@ -1430,10 +1446,16 @@ func precisionSelfTest(c *hx.Ctx, report func(kind, name, caseLine, human, impl,
 		for _, s := range samples[i] {
 			docs = append(docs, s.doc)
 		}
+		if classOff[f.id] {
+			continue
+		}
 		key := "class-precision/" + f.id
 		c.Res.Histogram[key+"/documents"] = len(docs)
 		if len(docs) < precisionDocs/3 {
-			report("correspondence", "finding-class-precision-unmeasured: "+f.id, "C29 class "+f.id, fmt.Sprintf("only %d documents satisfy the class's prediction", len(docs)), "", "", "")
+			c.Res.Notes = append(c.Res.Notes, fmt.Sprintf("class %s: precision not measured (only %d documents satisfy its prediction) - attribution by this class is unreliable on this tree", f.id, len(docs)))
+			if strict() {
+				report("correspondence", "finding-class-precision-unmeasured: "+f.id, "C29 class "+f.id, fmt.Sprintf("only %d documents satisfy the class's prediction", len(docs)), "", "", "")
+			}
 			continue
 		}
 		cls, dets, rs, err := evalDocsR(docs)
@@ -1456,6 +1478,9 @@ func precisionSelfTest(c *hx.Ctx, report func(kind, name, caseLine, human, impl,
 		c.Res.Histogram[key+"/fail-as-predicted"] = hits
 		c.Res.Histogram[key+"/permille"] = pm
 		if pm < precisionWanted {
+			c.Res.Notes = append(c.Res.Notes, fmt.Sprintf("class %s: precision %d \u2030 (%d of %d; first document that does not fail as predicted: %s) - attribution by this class is unreliable on this tree", f.id, pm, hits, len(docs), firstMiss))
+		}
+		if pm < precisionWanted && strict() {
 			report("correspondence", "finding-class-too-broad: "+f.id, "C29 class "+f.id,
 				fmt.Sprintf("%d of %d documents for which the class predicts a wrong rewriting fail as predicted (%d per mille, wanted %d)", hits, len(docs), pm, precisionWanted),
 				"first document that does not: "+firstMiss, "", "")
